@@ -53,6 +53,7 @@
 #define isxdigit igv_isxdigit
 /* strdup/strndup: allocation is a parameter of the check (C08.cpp supplies it) */
 #define malloc igv_malloc
+#define calloc igv_calloc
 
 #include <stddef.h>
 #include <stdint.h>
@@ -60,6 +61,7 @@
 #include <compat/libc/include/strings.h>
 #include <compat/libc/include/ctype.h>
 extern void *igv_malloc(size_t);
+extern void *igv_calloc(size_t, size_t);
 
 /* host header guards (glibc): the .c files' includes now add nothing */
 #define _STRING_H 1
@@ -68,39 +70,144 @@ extern void *igv_malloc(size_t);
 #define _STDLIB_H 1
 #define _MATH_H 1
 
+/* ROUND 3b (fragility): the anchor is the glob compat/libc/string/[*].c, the property names FUNCTIONS, not
+ * files.  Every file is optional (__has_include), a file named after a function that today shares a file
+ * (strtok_r.c) is picked up when it appears, and every igv_NAME is a weak reference in both translation
+ * units: a moved / split / removed file degrades to "function missing" verdicts of the ops of exactly the
+ * functions that are gone instead of a build failure of the whole check. */
+#pragma weak igv_memchr
+#pragma weak igv_memcmp
+#pragma weak igv_memcpy
+#pragma weak igv_memmove
+#pragma weak igv_memrchr
+#pragma weak igv_memset
+#pragma weak igv_strcasecmp
+#pragma weak igv_strcasestr
+#pragma weak igv_strcat
+#pragma weak igv_strchr
+#pragma weak igv_strchrnul
+#pragma weak igv_strcmp
+#pragma weak igv_strcpy
+#pragma weak igv_strcspn
+#pragma weak igv_strdup
+#pragma weak igv_strlcpy
+#pragma weak igv_strlen
+#pragma weak igv_strlwr
+#pragma weak igv_strncasecmp
+#pragma weak igv_strncat
+#pragma weak igv_strncmp
+#pragma weak igv_strncpy
+#pragma weak igv_strndup
+#pragma weak igv_strnlen
+#pragma weak igv_strpbrk
+#pragma weak igv_strrchr
+#pragma weak igv_strspn
+#pragma weak igv_strstr
+#pragma weak igv_strtok
+#pragma weak igv_strupr
+#pragma weak igv_strtok_r
+#if __has_include(<compat/libc/string/memchr.c>)
 #include <compat/libc/string/memchr.c>
+#endif
+#if __has_include(<compat/libc/string/memcmp.c>)
 #include <compat/libc/string/memcmp.c>
+#endif
+#if __has_include(<compat/libc/string/memcpy.c>)
 #include <compat/libc/string/memcpy.c>
+#endif
+#if __has_include(<compat/libc/string/memmove.c>)
 #include <compat/libc/string/memmove.c>
+#endif
+#if __has_include(<compat/libc/string/memrchr.c>)
 #include <compat/libc/string/memrchr.c>
+#endif
+#if __has_include(<compat/libc/string/memset.c>)
 #include <compat/libc/string/memset.c>
+#endif
+#if __has_include(<compat/libc/string/strcasecmp.c>)
 #include <compat/libc/string/strcasecmp.c>
+#endif
+#if __has_include(<compat/libc/string/strcasestr.c>)
 #include <compat/libc/string/strcasestr.c>
+#endif
+#if __has_include(<compat/libc/string/strcat.c>)
 #include <compat/libc/string/strcat.c>
+#endif
+#if __has_include(<compat/libc/string/strchr.c>)
 #include <compat/libc/string/strchr.c>
+#endif
+#if __has_include(<compat/libc/string/strchrnul.c>)
 #include <compat/libc/string/strchrnul.c>
+#endif
+#if __has_include(<compat/libc/string/strcmp.c>)
 #include <compat/libc/string/strcmp.c>
+#endif
+#if __has_include(<compat/libc/string/strcpy.c>)
 #include <compat/libc/string/strcpy.c>
+#endif
+#if __has_include(<compat/libc/string/strcspn.c>)
 #include <compat/libc/string/strcspn.c>
+#endif
+#if __has_include(<compat/libc/string/strdup.c>)
 #include <compat/libc/string/strdup.c>
+#endif
+#if __has_include(<compat/libc/string/strlcpy.c>)
 #include <compat/libc/string/strlcpy.c>
+#endif
+#if __has_include(<compat/libc/string/strlen.c>)
 #include <compat/libc/string/strlen.c>
+#endif
+#if __has_include(<compat/libc/string/strlwr.c>)
 #include <compat/libc/string/strlwr.c>
+#endif
+#if __has_include(<compat/libc/string/strncasecmp.c>)
 #include <compat/libc/string/strncasecmp.c>
+#endif
+#if __has_include(<compat/libc/string/strncat.c>)
 #include <compat/libc/string/strncat.c>
+#endif
+#if __has_include(<compat/libc/string/strncmp.c>)
 #include <compat/libc/string/strncmp.c>
+#endif
+#if __has_include(<compat/libc/string/strncpy.c>)
 #include <compat/libc/string/strncpy.c>
+#endif
+#if __has_include(<compat/libc/string/strndup.c>)
 #include <compat/libc/string/strndup.c>
+#endif
+#if __has_include(<compat/libc/string/strnlen.c>)
 #include <compat/libc/string/strnlen.c>
+#endif
+#if __has_include(<compat/libc/string/strpbrk.c>)
 #include <compat/libc/string/strpbrk.c>
+#endif
+#if __has_include(<compat/libc/string/strrchr.c>)
 #include <compat/libc/string/strrchr.c>
+#endif
+#if __has_include(<compat/libc/string/strspn.c>)
 #include <compat/libc/string/strspn.c>
+#endif
+#if __has_include(<compat/libc/string/strstr.c>)
 #include <compat/libc/string/strstr.c>
+#endif
+#if __has_include(<compat/libc/string/strtok.c>)
 #include <compat/libc/string/strtok.c>
+#endif
+#if __has_include(<compat/libc/string/strupr.c>)
 #include <compat/libc/string/strupr.c>
+#endif
+#if __has_include(<compat/libc/string/strtok_r.c>)
+#include <compat/libc/string/strtok_r.c>
+#endif
 
 /* what the compiled code believes about the platform (op `plat`) */
+/* BLOCK_SZ is a file-local macro of memcpy.c, not part of the property: optional, reported as a TAG only */
+#ifdef BLOCK_SZ
 unsigned igv_block_sz(void) { return (unsigned)BLOCK_SZ; }
+#else
+unsigned igv_block_sz(void) { return 0; }
+#endif
+unsigned igv_char_bit(void) { return (unsigned)__CHAR_BIT__; }
 int igv_char_is_signed(void) { return (char)0xff < 0; }
 
 /* ---- round 3: ctype through both spellings (the libc names of
